@@ -191,3 +191,21 @@ Proof.
       intros e He Heh. apply In_nth_error in He. destruct He as [j Hj]. pose proof (Hh _ _ Hj) as Hej.
       assert (j = N.to_nat (tip - h_mhg b)) by lia. subst j. rewrite En in Hj. discriminate.
 Qed.
+
+(* ---- NextHeightBFTParameters: the smallest stored parameter height above h (None if there is none) ---- *)
+Theorem next_params_height_spec : forall ps h, keys_sorted ps ->
+  match next_params_height ps h with
+  | Some k => (exists p, In (k, p) ps) /\ h < k /\ forall k' p', In (k', p') ps -> h < k' -> k <= k'
+  | None => forall k' p', In (k', p') ps -> k' <= h
+  end.
+Proof.
+  induction ps as [|[k p] ps IH]; intros h Hs; cbn [next_params_height].
+  - intros k' p' [].
+  - destruct Hs as [Hk Hs]. destruct (h + 1 <=? k) eqn:E.
+    + split; [exists p; left; reflexivity|]. split; [lia|].
+      intros k' p' [Heq|Hin] Hlt; [inversion Heq; lia|]. specialize (Hk k' p' Hin). lia.
+    + specialize (IH h Hs). destruct (next_params_height ps h) as [k2|].
+      * destruct IH as ((p2 & Hin2) & Hlt & Hmin). split; [exists p2; right; exact Hin2|]. split; [exact Hlt|].
+        intros k' p' [Heq|Hin] Hl; [inversion Heq; subst; lia|]. exact (Hmin k' p' Hin Hl).
+      * intros k' p' [Heq|Hin]; [inversion Heq; subst; lia|]. exact (IH k' p' Hin).
+Qed.
